@@ -353,8 +353,11 @@ class MeiParser(object):
                 parent = element.getparent()
                 if parent.tag == self._ns_name("staffDef"):
                     number = parent.attrib.get("n", 1)
-                else:  # go back another level to staff element
-                    number = parent.getparent().attrib.get("n", 1)
+                else:  # go back to the staff element (the clef can be in a beam or tuplet of the layer)
+                    staff_el = next(
+                        element.iterancestors(tag=self._ns_name("staff")), None
+                    )
+                    number = staff_el.attrib.get("n", 1) if staff_el is not None else 1
                 sign = element.attrib["shape"]
                 line = element.attrib["line"]
                 octave = self._compute_clef_octave(
